@@ -63,6 +63,7 @@ class BuildResult:
     self.audit_problems = []   # strings
     self.wall_s = 0.0
     self.model_ok = True
+    self.leanchecker = None
 
   @property
   def proof_ok(self):
@@ -93,7 +94,7 @@ def _import_closure(targets):
   return seen
 
 
-def lean_build(targets, audit_file=None, expected_theorems=()):
+def lean_build(targets, audit_file=None, expected_theorems=(), recheck=False):
   """Regenerate the model fragments from /repo, build the targets, audit axioms."""
   import translate
   res = BuildResult()
@@ -131,6 +132,14 @@ def lean_build(targets, audit_file=None, expected_theorems=()):
       for thm in expected_theorems:
         if thm not in res.axioms:
           res.audit_problems.append(f'expected theorem {thm} missing from the audit')
+  if recheck and res.ok:
+    # thorough tier: replay the compiled property modules through Lean's independent re-checker
+    mods = [t for t in targets if t.startswith('MM.Props.')]
+    with build_lock():
+      rc, out = _run(['lake', 'env', 'leanchecker'] + mods, cwd=LEAN, timeout=3600)
+    res.leanchecker = {'modules': mods, 'rc': rc}
+    if rc != 0:
+      res.audit_problems.append('leanchecker rejects ' + ' '.join(mods) + ': ' + out[-300:])
   # forbidden tokens in the Lean sources the targets depend on (comments stripped)
   for path in sorted(_import_closure(targets)):
     with open(path) as f:
@@ -345,6 +354,7 @@ def finish(out, build, theorems, trusted_base, level='proof', checker_cmd=None):
       'trusted_base': trusted_base,
       'theorems': {t: (build.axioms.get(t) if build is not None else None) for t in theorems},
       'translators': build.translate if build is not None else {},
+      'leanchecker': build.leanchecker if build is not None else None,
       'evaluations': max(out.evaluations, 1),
       'distinct_nontrivial': len(out.nontrivial),
       'rule': out.rule,
